@@ -399,8 +399,10 @@ def _strategies(players, tl, who):
         yield dict(zip(idx, combo))
 
 
-def exact_reach(players, tl, finals):
-    """max over Player 1 / min over Player 2 memoryless strategies of exact chain values (Fractions)"""
+def exact_reach(players, tl, finals, conv=None):
+    """max over Player 1 / min over Player 2 memoryless strategies of exact chain values (Fractions);
+    conv maps probability literals to rationals (default: the exact value of the double)"""
+    _fr = conv or Fraction
     n = len(players)
     best = None
     for s1 in _strategies(players, tl, P1):
